@@ -244,6 +244,11 @@ def monitor(prop, progs, run):
                 pending_call.pop(t[1], None)
         if barrier and run.status == "deadlock":
             msgs.append("readers that rendezvous inside the read section deadlocked: the batch was not admitted together")
+        if not barrier and run.status == "deadlock" and pending_call and any(k in ("R", "N") for k in pending_call.values()):
+            # sections that wait for nothing, and still nobody can move: the read requests that are queued were never granted
+            # (`read requests that queued up behind a writer are granted together`), e.g. because their wake-up went to another waiter
+            msgs.append("read request(s) of thread(s) %s never granted: every thread is blocked although no critical section waits for anything" %
+                        ",".join(sorted(t for t, k in pending_call.items() if k in ("R", "N"))))
         if not has_writer and any(t[0] == "park" for t in events):
             pass  # already reported by the rule above
     return msgs
